@@ -31,6 +31,7 @@ OWN = {
     'C15': {'fixed_rows_not_subset', 'fixed_rows_lost', 'fixed_rows_wrong_value', 'fixed_count_mismatch',
             'fixed_decode_outside_subset', 'free_does_not_restore', 'fix_connection_variable_accepted',
             'fix_out_of_range_accepted', 'rejected_fix_changed_state', 'fixed_variable_still_listed',
+            'unfixed_view_changed_while_fixed',
             'fix_exception', 'fixed_statistics_mismatch'},
 }
 
@@ -258,6 +259,35 @@ def run_history(prop, sp, enc, col, emit, rnd, depth, model):
     return n_steps
 
 
+def both_views(P, E, stats0, dv, v, enc, emit, col, order):
+    col.count('monitor_both_views_evaluations')
+    try:
+        if order == 'restricted_first':
+            _ = P.gp.get_n_valid_designs(with_fixed=True)
+            try:
+                _ = P.gp.get_statistics()
+            except Exception:  # noqa  (judged below)
+                pass
+        n_all = int(P.gp.get_n_valid_designs(with_fixed=False))
+        n_decl = int(P.gp.get_n_design_space(with_fixed=False))
+        res = P.gp.get_all_discrete_x(with_fixed=False)
+        rows_all = None if res is None else sorted(
+            (tuple(round(float(x), 9) for x in r), tuple(bool(x) for x in a)) for r, a in zip(*res))
+        bad = {}
+        if E is not None and n_all != len(E):
+            bad['n_valid_without_fixed'] = [n_all, len(E)]
+        if stats0 is not None and n_decl != stats0[2]:
+            bad['n_declared_without_fixed'] = [n_decl, stats0[2]]
+        if E is not None and rows_all is not None and rows_all != E:
+            bad['enumeration_without_fixed'] = [len(rows_all), len(E)]
+        if bad:
+            emit('unfixed_view_changed_while_fixed', dict(bad, var=dv.name, value=v, enc=enc, order=order),
+                 where={'order': order})
+    except Exception as e:  # noqa
+        emit('fix_exception', {'stage': 'both_views', 'exc': D.exc_info(e), 'enc': enc},
+             where={'stage': 'both_views', 'exc': type(e).__name__})
+
+
 def run_fix_laws(sp, enc, col, emit, rnd, model, max_vars=6):
     """C15: for every fixable variable x value: subset law, counts, decodes, free restores; rejections"""
     import adsg_core.graph.adsg_nodes as an
@@ -293,7 +323,14 @@ def run_fix_laws(sp, enc, col, emit, rnd, model, max_vars=6):
                 listed = [d.name for d in P.gp.des_vars]
                 if P.all_dvs[i].name in listed and len(listed) == len(names0):
                     emit('fixed_variable_still_listed', {'var': dv.name, 'value': v, 'enc': enc})
+                # while a variable is fixed, the with_fixed=False views keep describing the ORIGINAL problem and the
+                # with_fixed=True views the restricted one -- whichever of the two is asked first
+                orig_first = (i + int(v if dv.is_discrete else 0) + len(names0)) % 2 == 0
+                if orig_first:
+                    both_views(P, E, stats0, dv, v, enc, emit, col, 'original_first')
                 rows = P.enumerate()
+                if not orig_first:
+                    both_views(P, E, stats0, dv, v, enc, emit, col, 'restricted_first')
                 if E is not None and rows is not None and dv.is_discrete:
                     did = True
                     def drop(r):
